@@ -13,13 +13,15 @@ import os
 import common
 from common import coq_list, coq_z
 
-THEOREMS = ["C12_identity", "C12_equal", "C12_children", "C12_wf", "C12_source", "C12_example"]
+THEOREMS = ["C12_identity", "C12_equal", "C12_children", "C12_wf", "C12_source", "C12_example",
+            "C12_ns_children", "C12_ns_unique", "C12_ns_result", "C12_ns_old_order_refuted"]
 
 KEYS = ["a", "b", "c", "d", "A"]
 QKEYS = ["q:t", "q:u", "x:n", "x:m"]
 # classes: 0 Property, 1 SubmodelElementCollection, 2 MultiLanguageProperty, 5 RelationshipElement,
 # 6 AnnotatedRelationshipElement (children = annotations), 7 Range, 9 Submodel (root),
-# oracle-only: 3 SubmodelElementList(Property/Int), 4 Operation (kids carry "slot")
+# 4 Operation (kids carry "slot" 0/1/2 = input / output / in-output variable; model/UpdateFromNS.v),
+# oracle-only: 3 SubmodelElementList(Property/Int)
 
 
 def _m():
@@ -261,6 +263,25 @@ def encode(o, objs, depth=0, rows=None):
     return rows
 
 
+def mencode(o, objs, depth=0, si=0, rows=None):
+    """pre-order rows, same as UpdateFromNS.mencode: like encode, the second column is the index of the set of the
+    parent in which the node sits (root: 0); children are listed set by set"""
+    if rows is None:
+        rows = []
+    quals = [("q:" + q.type, q) for q in o.qualifier] if hasattr(o, "qualifier") else []
+    quals += [("x:" + e.name, e) for e in o.extension]
+    row = [depth, si, oid_of(objs, o), cls_code(o), KEYS.index(o.id_short) if o.id_short in KEYS else -1,
+           payload(o), src_code(o)]
+    for qk, q in sorted(quals, key=lambda t: QKEYS.index(t[0]) if t[0] in QKEYS else 99):
+        row += [QKEYS.index(qk) if qk in QKEYS else -1, oid_of(objs, q),
+                q.value + 8 * sup_code(q) + 32 * rt_code(q) if isinstance(q.value, int) else -1]
+    rows.append(row)
+    for i, S in enumerate(kid_sets(o)):
+        for k in S:
+            mencode(k, objs, depth + 1, i, rows)
+    return rows
+
+
 # ----------------------------------------------------------------------------- oracle
 
 def check_equal(o, spec, path, bad, root=True, in_list=False, check_source=True):
@@ -474,8 +495,10 @@ def gen_embedded_case(rng):
     return {"live": live, "new": new, "us": rng.randrange(2), "via": rng.choice(["ctor", "json"])}
 
 
-def run_sdk(case):
-    """case = {live, new, us, via}.  Returns (rows or None, failures [(class, msg)])."""
+def run_sdk(case, with_m=False):
+    """case = {live, new, us, via}.  Returns (rows or None, failures [(class, msg)]); with_m: a third component, the
+    rows of UpdateFromNS.mencode_res (a raised AASConstraintViolation(22) is the single row [-1, 22]; None when
+    nothing can be observed)."""
     objs = {}
     live = build(case["live"], objs, True)
     new = load_copy(case["new"], objs) if case.get("via") == "json" else build(case["new"], objs, True)
@@ -487,6 +510,8 @@ def run_sdk(case):
         cid = getattr(e, "constraint_id", None)
         bad.append(("raised-" + type(e).__name__ + (f"-{cid}" if cid is not None else ""),
                     f"update_from raised {type(e).__name__}: {e}"))
+        if with_m:
+            return None, bad, ([[-1, 22]] if type(e).__name__ == "AASConstraintViolation" and cid == 22 else None)
         return None, bad
     check_equal(live, case["new"], "", bad)
     check_identity(live, case["live"], case["new"], objs, "", bad)
@@ -513,12 +538,14 @@ def run_sdk(case):
             x = objs[oid]
             if id(x) not in in_result and x.parent is not None and id(x.parent) in in_result:
                 bad.append(("not-detached", f"removed object {oid} still names an object of the live tree as parent"))
-    rows = None
+    rows = mrows = None
     try:
         rows = encode(live, objs)
+        if with_m:
+            mrows = mencode(live, objs)
     except Exception as e:
         bad.append(("observe", f"{type(e).__name__}: {e}"))
-    return rows, bad
+    return (rows, bad, mrows) if with_m else (rows, bad)
 
 
 # ----------------------------------------------------------------------------- generator
@@ -526,6 +553,8 @@ def run_sdk(case):
 class Gen:
     def __init__(self, rng, extra):
         self.rng, self.extra, self.next = rng, extra, 1
+        self.nolist = False     # True: class 3 (SubmodelElementList) is never produced
+        self.pstay = 0.8        # probability that an edited Operation variable stays in its set (edit)
 
     def oid(self):
         self.next += 1
@@ -555,10 +584,10 @@ class Gen:
         x = self.rng.random()
         return old if x < 0.5 else 0 if x < 0.8 else self.rng.choice([0, 1, 2])
 
-    def node(self, depth, key, cls=None, slot=None):
+    def node(self, depth, key, cls=None, slot=None, bare=False):
         r = self.rng
         if cls is None:
-            choices = [0, 0, 0, 1, 1, 2, 5, 6, 7] + ([3, 4] if self.extra else [])
+            choices = [0, 0, 0, 1, 1, 2, 5, 6, 7] + (([4] if self.nolist else [3, 4]) if self.extra else [])
             cls = r.choice(choices) if depth < 3 else r.choice([0, 0, 2, 5, 7])
         n = {"oid": self.oid(), "cls": cls, "key": key, "pay": r.randrange(NPROP if cls == 0 else 4),
              "src": r.choice([0, 0, 1, 2]), "quals": self.quals(), "kids": []}
@@ -568,6 +597,8 @@ class Gen:
             n["dl"] = r.choice([0, 0, 1])
         if slot is not None:
             n["slot"] = slot
+        if bare:
+            return n
         if cls in (1, 9, 4):
             keys = [k for k in KEYS if r.random() < (0.55 if depth < 2 else 0.35)]
             for k in keys:
@@ -582,8 +613,8 @@ class Gen:
             n["lp"] = r.choice([0, 1, 2, 3, 4])     # positional edits after construction (ids / dict order vs positions)
         return n
 
-    def edit(self, n, depth=0):
-        """an arbitrary edit of a tree: returns the spec of the 'freshly loaded copy'"""
+    def edit(self, n, depth=0, bare=False):
+        """an arbitrary edit of a tree: returns the spec of the 'freshly loaded copy' (bare: without children)"""
         r = self.rng
         x = r.random()
         if x < 0.55:
@@ -601,7 +632,7 @@ class Gen:
         if depth == 0 and r.random() < 0.15:
             m["rid"] = 1                                   # the copy carries another id
         if "slot" in n:
-            m["slot"] = n["slot"] if (r.random() < 0.8 or not self.extra) else r.randrange(3)
+            m["slot"] = n["slot"] if (r.random() < self.pstay or not self.extra) else r.randrange(3)
         for qq in n["quals"]:
             qk, qv, qs = qq[0], qq[2], (qq[3] if len(qq) > 3 else 0)
             x = r.random()
@@ -614,6 +645,8 @@ class Gen:
             if k not in [q[0] for q in m["quals"]] and r.random() < 0.1:
                 m["quals"].append([k, self.oid(), r.randrange(3), r.choice([0, 0, 1]),
                                    r.choice([0, 1]) if k.startswith("x:") else 0])
+        if bare:
+            return m
         if n["cls"] == 3:
             # the list's own type attributes may change together with its items
             lt, ls = n.get("lt", 0), n.get("ls")
@@ -674,6 +707,90 @@ def gen_case(rng, extra=False):
     return {"live": live, "new": new, "us": rng.randrange(2), "via": rng.choice(["ctor", "json"])}
 
 
+OPVARS = [0, 0, 2, 7, 1]      # classes of the variables of a dedicated Operation
+
+
+def op_node(g, depth, key):
+    """an Operation whose variables are Properties, MultiLanguageProperties, Ranges and collections"""
+    r = g.rng
+    n = g.node(depth, key, cls=4, bare=True)
+    for k in KEYS:
+        if r.random() < 0.7:
+            n["kids"].append(g.node(depth + 1, k, cls=r.choice(OPVARS), slot=r.randrange(3)))
+    return n
+
+
+def op_edit(g, n, depth):
+    """the copy of an Operation: every variable stays (same set, same class, attributes maybe changed), vanishes,
+    changes its class in its set, or moves to another set (with or without a change of class); new ones appear"""
+    r = g.rng
+    m = g.edit(n, depth, bare=True)
+    for k in n["kids"]:
+        if r.random() < 0.12:
+            continue                                       # vanished
+        slot = k.get("slot", 0)
+        if r.random() < 0.45:                              # moved to another set
+            slot = r.choice([s for s in range(3) if s != slot])
+        if r.random() < 0.25:                              # other class
+            e = g.node(depth + 1, k["key"], cls=r.choice([c for c in (0, 1, 2, 7) if c != k["cls"]]), slot=slot)
+        else:
+            e = g.edit(k, depth + 1)
+            e["slot"] = slot
+        m["kids"].append(e)
+    for kk in KEYS:                                        # appeared (a vanished idShort may come back anywhere)
+        if kk not in [y["key"] for y in m["kids"]] and r.random() < 0.25:
+            m["kids"].append(g.node(depth + 1, kk, cls=r.choice(OPVARS), slot=r.randrange(3)))
+    if r.random() < 0.3:
+        r.shuffle(m["kids"])
+    return m
+
+
+def put_kid(parent, kid, rng):
+    parent["kids"] = [k for k in parent["kids"] if k["key"] != kid["key"]] + [kid]
+    if rng.random() < 0.3:
+        rng.shuffle(parent["kids"])
+
+
+def gen_op_case(rng):
+    """a pair of Submodel trees without SubmodelElementLists with (at least) one Operation, directly below the root
+    or inside a SubmodelElementCollection, present in both trees; its variables stay / vanish / appear / change
+    class / move between the three sets"""
+    g = Gen(rng, True)
+    g.nolist, g.pstay = True, 0.6
+    live = g.node(0, "a", cls=9)
+    new = g.edit(live)
+    nested = rng.random() < 0.5
+    depth = 2 if nested else 1
+    lop = op_node(g, depth, rng.choice(KEYS))
+    nop = op_edit(g, lop, depth)
+    if nested:
+        lhold = g.node(1, rng.choice(KEYS), cls=1)
+        nhold = g.edit(lhold, 1)
+        put_kid(lhold, lop, rng)
+        put_kid(nhold, nop, rng)
+        lop, nop = lhold, nhold
+    put_kid(live, lop, rng)
+    put_kid(new, nop, rng)
+    return {"live": live, "new": new, "us": rng.randrange(2), "via": rng.choice(["ctor", "json"])}
+
+
+def op_moves(l, n, out=None):
+    """labels 'a->b' (and 'a->b:retyped') for every idShort that sits in set a of a live Operation and in set b != a
+    of the copy's Operation at the same path"""
+    if out is None:
+        out = []
+    nk = {k["key"]: k for k in n["kids"]}
+    for k in l["kids"]:
+        k2 = nk.get(k["key"])
+        if k2 is None:
+            continue
+        if l["cls"] == 4 and n["cls"] == 4 and k.get("slot", 0) != k2.get("slot", 0):
+            out.append(f"{k.get('slot', 0)}->{k2.get('slot', 0)}" + ("" if k["cls"] == k2["cls"] else ":retyped"))
+        if k["cls"] == k2["cls"]:
+            op_moves(k, k2, out)
+    return out
+
+
 # ----------------------------------------------------------------------------- Coq terms
 
 def nat(x):
@@ -694,6 +811,29 @@ def coq_case(case, rows):
 
 PRELUDE = ("From Coq Require Import List ZArith.\n"
            "From Basyx Require Import model.UpdateFrom.")
+
+
+def nsets(cls):
+    """number of child NamespaceSets of Referables, by class (the same for the live object and the copy)"""
+    return 3 if cls == 4 else 1 if cls in (1, 6, 9) else 0
+
+
+def coq_mnode(n):
+    quals = coq_list(f"({nat(QKEYS.index(q[0]))}, ({nat(q[1])}, {nat(qtok(q))}))" for q in n["quals"])
+    k = nsets(n["cls"])
+    assert k or not n["kids"], n
+    sets = coq_list(coq_list(coq_mnode(x) for x in n["kids"] if k == 1 or x.get("slot", 0) == i) for i in range(k))
+    return (f"MNode {nat(n['oid'])} {nat(n['cls'])} {nat(KEYS.index(n['key']))} {nat(tok(n))} {nat(n['src'])} "
+            f"{quals} {sets}")
+
+
+def coq_mcase(case, rows):
+    return (f"(({coq_mnode(case['live'])}), ({coq_mnode(case['new'])}), {'true' if case['us'] else 'false'}, "
+            f"{coq_z(common.zhash_d(rows, 2))})")
+
+
+MPRELUDE = ("From Coq Require Import List ZArith.\n"
+            "From Basyx Require Import model.UpdateFrom model.UpdateFromNS.")
 
 
 def shrink(case, pred):
@@ -741,24 +881,41 @@ def has_extra(n):
     return any(x["cls"] in (3, 4) for x in all_nodes(n))
 
 
+def has_list(n):
+    return any(x["cls"] == 3 for x in all_nodes(n))
+
+
 def run(chk):
     rng = chk.rng
     npairs, nextra = (2500, 800) if chk.tier == "quick" else (30000, 8000)
+    nop, nsingle = (600, 300) if chk.tier == "quick" else (6000, 3000)
     chk.theorems("props.C12", THEOREMS, ["theories/props/C12.vo"])
     cases = [c for c in corpus_cases()]
     for _ in range(npairs):
         cases.append(gen_case(rng))
     extra = [gen_case(rng, extra=True) for _ in range(nextra)]
+    # Operations (three variable sets, one namespace), no lists: variables stay / vanish / appear / retype / move
+    opcases = [gen_op_case(rng) for _ in range(nop)]
     terms, tcases = [], []
+    mterms, mcases = [], []
+    oterms, ocases = [], []
+    single_m = 0
     reported = set()
-    for ci, case in enumerate(cases + extra):
-        rows, bad = run_sdk(case)
+    for ci, case in enumerate(cases + extra + opcases):
+        rows, bad, mrows = run_sdk(case, with_m=True)
         nl, nn = sum(1 for _ in all_nodes(case["live"])), sum(1 for _ in all_nodes(case["new"]))
         chk.seen(case, nontrivial=nl >= 3 and nn >= 3)
         chk.count(f"nodes={min((nl + nn) // 5 * 5, 40)}+")
         chk.count("update_source=%d" % case["us"])
         modelled = not has_extra(case["live"]) and not has_extra(case["new"])
-        chk.count("modelled" if modelled else "oracle_only(list/operation)")
+        ns_modelled = not modelled and not has_list(case["live"]) and not has_list(case["new"])
+        chk.count("modelled" if modelled else "modelled(ns)" if ns_modelled else "oracle_only(list)")
+        if ci >= len(cases) + len(extra):
+            chk.count("operation_cases")
+        for mv in op_moves(case["live"], case["new"]):
+            chk.count("op_move=" + mv.split(":")[0])
+            if mv.endswith(":retyped"):
+                chk.count("op_move_retyped")
         for cls in sorted({b[0] for b in bad}):
             sig = f"C12:{cls}" + ("" if modelled else ":list-or-operation")
             chk.count("oracle_fail=" + cls)
@@ -771,6 +928,19 @@ def run(chk):
         if modelled and rows is not None:
             terms.append(coq_case(case, rows))
             tcases.append(case)
+        # model/UpdateFromNS.v: trees with Operations and without lists; the single-set trees are its special case
+        if mrows is not None and (ns_modelled or (modelled and single_m < nsingle)):
+            single_m += 1 if modelled else 0
+            if mrows == [[-1, 22]]:
+                # update_from raised AASd-022: an oracle failure (reported above).  The model of the repaired order
+                # ([updm true]) never raises on well-formed trees (C12_ns_unique); such a run is compared with the model
+                # of the order before the repair ([updm false], C12_ns_old_order_refuted) so that the finding is
+                # attributed to that order and anything else still breaks the tie
+                oterms.append(coq_mcase(case, mrows))
+                ocases.append(case)
+            else:
+                mterms.append(coq_mcase(case, mrows))
+                mcases.append(case)
         if len(chk.samples) < 3 and nl >= 5 and modelled:
             chk.samples.append({"case": case, "sdk_rows": rows})
     # the updated object is a child of a namespace outside the update (idShort of the root may change)
@@ -827,21 +997,65 @@ def run(chk):
         chk.tie_broken("correspondence", {"n_disagreements": len(badi), "case": small, "sdk_rows": rows, "model_rows": mt[-2500:]})
         for b in bad[:1]:
             chk.fail("C12:" + b[0], b[1], {"case": small, "how": "tools/c12.py run_sdk(case)"})
+    # second correspondence: model/UpdateFromNS.v (objects with several child sets in one namespace)
+    badm, errm = common.run_mismatch_shards("C12ns", MPRELUDE, mterms, "check_mcase",
+                                            shard=250 if chk.tier == "quick" else 500)
+    chk.traces += common.run_mismatch_shards.evaluated - len(badm)
+    chk.count("ns_correspondence_cases", len(mterms))
+    if oterms:
+        bado, erro = common.run_mismatch_shards("C12nso", MPRELUDE, oterms, "check_mcase_old",
+                                                shard=250 if chk.tier == "quick" else 500)
+        chk.count("raised_AASd022_as_model_of_old_order", len(oterms) - len(bado))
+        for e in erro:
+            chk.tie_broken("correspondence-ns-run", e)
+        if bado:
+            chk.tie_broken("correspondence-ns", {"n_disagreements": len(bado), "case": ocases[bado[0]],
+                                                 "sdk_rows": [[-1, 22]],
+                                                 "what": "update_from raised AASd-022 where neither the model of the "
+                                                         "two-phase order nor the model of the old order raises it"})
+    for e in errm:
+        chk.tie_broken("correspondence-ns-run", e)
+    if badm:
+        case = mcases[badm[0]]
+
+        def still_ns(c2):
+            try:
+                _, _, mrows = run_sdk(c2, with_m=True)
+            except Exception:
+                return False
+            if mrows is None:
+                return False
+            b, e = common.run_mismatch_shards("C12nss", MPRELUDE, [coq_mcase(c2, mrows)], "check_mcase")
+            return bool(b or e)
+        small = shrink(case, still_ns) if len(badm) < 3000 else case
+        _, bad, mrows = run_sdk(small, with_m=True)
+        mt = common.coq_eval("C12ns", MPRELUDE, f"mencode_res (updm true ({coq_mnode(small['live'])}) "
+                                                f"({coq_mnode(small['new'])}) {'true' if small['us'] else 'false'})")
+        chk.tie_broken("correspondence-ns", {"n_disagreements": len(badm), "case": small, "sdk_rows": mrows,
+                                             "model_rows": mt[-2500:]})
     chk.trusted = [
         "Coq 8.16.1 kernel (coqc; vm_compute only for the Example and the correspondence)",
         "hand-written model coq/theories/model/UpdateFrom.v tied to Referable.update_from / "
         "NamespaceSet.update_nss_from by this correspondence run (Submodel / SubmodelElementCollection / Property / "
         "MultiLanguageProperty trees with qualifiers and extensions)",
+        "hand-written model coq/theories/model/UpdateFromNS.v (objects with several child sets in one namespace: "
+        "Operation with its three variable sets) tied to Referable.update_from / NamespaceSet.update_nss_from / "
+        "NamespaceSet.add by the second correspondence run (check_mcase; an AASConstraintViolation(22) is an outcome "
+        "of the model, too)",
         "tools/c12.py (generator, SDK builder, canonicaliser, oracle), tools/common.py",
     ]
     chk.assumptions = ["plain attributes are represented by one payload token per node (update_from copies every "
                        "entry of vars(other) except parent / namespace_element_sets / source)",
-                       "SubmodelElementList and Operation children are covered by the oracle only"]
+                       "SubmodelElementList children are covered by the oracle only; Operation nodes (three variable "
+                       "sets, one namespace) are inside the model (model/UpdateFromNS.v)"]
     return chk.finish(level="proof",
                       rule="seeded pairs (live tree, arbitrary edit of it | unrelated tree) of depth <= 3: attribute "
                            "changes, children added/removed/renamed/retyped, qualifier and extension values changed, "
-                           "added, removed, children shuffled; plus an oracle-only stream with SubmodelElementLists "
-                           "and Operations; non-trivial = both trees have >= 3 nodes")
+                           "added, removed, children shuffled; plus a stream with SubmodelElementLists and Operations "
+                           "(oracle only where a list occurs, otherwise oracle and model/UpdateFromNS.v); plus a stream "
+                           "of trees with an Operation below the root or inside a collection whose variables stay, "
+                           "vanish, appear, change class and move between the three variable sets (all six directions; "
+                           "oracle and model/UpdateFromNS.v); non-trivial = both trees have >= 3 nodes")
 
 
 def replay(path):
